@@ -79,6 +79,29 @@ pub fn main() -> i32 {
     if out.result.is_err() && out.diagnostic_errors().is_none() {
       bad += 1;
     }
+    // randomly generated rules must be accepted by ast-grep (one at a time, 200 of them)
+    if matches!(*lang, "TypeScript" | "JavaScript") {
+      let mut rejected = 0;
+      let mut with_findings = 0;
+      for n in 0..200 {
+        let spec = gen_random_rule(&mut rng, lang, n);
+        let w2 = CliWorld { rule_dirs: vec![RuleDir { name: "rules".into(), files: vec![RuleFile { name: "g.yml".into(), docs: vec![spec.clone()] }] }], util_dirs: vec![], with_tests: false, ..w.clone() };
+        w2.materialize(&root);
+        let o = cli_run::run_cli(&root, &a(&["sg", "scan", "--json=stream", "-j", "1"]), 7, None);
+        if o.result.is_err() && o.diagnostic_errors().is_none() {
+          rejected += 1;
+          if rejected <= 3 {
+            println!("   generated rule rejected: {:?}\n{}", o.result, spec.to_yaml());
+          }
+        } else if !o.stdout.is_empty() {
+          with_findings += 1;
+        }
+      }
+      println!("   generated rules: 200 tried, {rejected} rejected, {with_findings} with findings");
+      if rejected > 0 {
+        bad += 1;
+      }
+    }
     let t1 = cli_run::run_cli(&root, &a(&["sg", "test", "-U"]), 7, None);
     let t2 = cli_run::run_cli(&root, &a(&["sg", "test"]), 7, None);
     println!("   test -U => {:?}; test => {:?}", t1.result, t2.result);
